@@ -146,3 +146,22 @@ method("send_messages", "(%s, topic: str, key: Optional[bytes] = None, msgs: Lis
                                    "self._batch_reqs[len(self._batch_reqs) - 1].key == key and "
                                    "self._batch_reqs[len(self._batch_reqs) - 1].topic == topic",
            "fresh-unfired-deferred[C01]": "not called(self._batch_reqs[len(self._batch_reqs) - 1].deferred)"}})
+
+
+# ---- C19: cancelling a send -------------------------------------------------------------------------------------
+method("_cancel_send_messages", "(%s, d: Ref_Deferred) -> None" % SELF, props=["C19"],
+       requires=["not called(d)"],
+       locals={"msgs": "List[Optional[bytes]]"},
+       # stated over the queue entry being removed (`req`, the element whose Deferred is d), not over temporaries
+       loops={"for#1": dict(index="i", inv=["self._waitingMsgCount == old(self._waitingMsgCount)",
+                                            "self._waitingByteCount == old(self._waitingByteCount)",
+                                            "self._batch_reqs == old(self._batch_reqs)", "not called(d)"]),
+              "for#1/for#1": dict(index="j", inv=["self._waitingMsgCount == old(self._waitingMsgCount) - len(req.messages)",
+                                                  "self._batch_reqs == old(self._batch_reqs)", "not called(d)",
+                                                  "req.deferred == d"])},
+       checkpoints={"fire:errback#1": {
+           # C19: cancelling before dispatch removes the send from the queue and ALL its messages (null ones too) from
+           # the count that is compared with the batch threshold
+           "removed-from-count-accounting[C19]": "self._waitingMsgCount == old(self._waitingMsgCount) - len(req.messages)",
+           "removed-from-queue[C19]": "len(self._batch_reqs) == len(old(self._batch_reqs)) - 1"}},
+       ensures={"caller-detached[C19]": "called(d)"})
